@@ -1390,8 +1390,10 @@ def repeat(a, repeats, axis=None):
 
 def tile(a, reps):
     t = _as_tensor_or_scalar(a)
-    if t is None:
-        raise OutOfReach("tile of scalar")
+    if t is None or t.ndim == 0:
+        # np.tile(scalar, reps) is an array of shape reps filled with the scalar
+        shape = tuple(reps) if isinstance(reps, (tuple, list)) else (reps,)
+        return full(shape, a if t is None else wrap_scalar(t._elem()))
     reps = tuple(raw(r) for r in (reps if isinstance(reps, (tuple, list)) else (reps,)))
     if len(reps) < t.ndim:
         reps = (1,) * (t.ndim - len(reps)) + reps
@@ -2009,6 +2011,13 @@ def _pieces(seq):
 def concatenate(seq, axis=0):
     ps = _pieces(seq)
     if isinstance(ps, SFamily):
+        # a family of equally shaped 2-D pieces: joining (n, 1) columns along axis 1 is hstack,
+        # (1, n) rows along axis 0 is vstack
+        t = _family_to_tensor(ps)
+        if t.ndim == 3 and axis in (1, -1) and isinstance(t.rshape[2], int) and t.rshape[2] == 1:
+            return STensor((t.rshape[1], t.rshape[0]), lambda i, j: t._elem(j, i, 0), t.kind)
+        if t.ndim == 3 and axis == 0 and isinstance(t.rshape[1], int) and t.rshape[1] == 1:
+            return STensor((t.rshape[0], t.rshape[2]), lambda i, j: t._elem(i, 0, j), t.kind)
         raise OutOfReach("concatenate of family")
     if not ps:
         raise ValueError("need at least one array to concatenate")
